@@ -19,7 +19,46 @@ Q = 'equivalent: the value is recomputed / already equal / never read afterwards
 L = ('names of Markov binarization symbols / tie-breaking of the optimal order: '
      'C07 and C08 constrain chains and counts, not label content or optimality')
 F = 'a field of a newly created node that no property constrains'
+N = 'bound / branch of a sanity check that well-formed input never reaches'
 RULES = [
+    ('trees/treeinput.py', 'export', (425, 432), Q + ' (variable never read)'),
+    ('trees/treeinput.py', 'export', (468, 476), Q + ' (the counter is set '
+     'again at the next #BOS)'),
+    ('trees/treeinput.py', 'export_parse_line', None, E),
+    ('trees/treeinput.py', 'export_build_tree', None, Q + ' (a new Tree '
+     'already has an empty child list)'),
+    ('trees/treeinput.py', 'tigerxml_build_tree', (70, 80),
+     F + ' (lemma / morph of the VROOT node the reader adds)'),
+    ('trees/treeinput.py', 'tigerxml', (120, 130), P),
+    ('trees/treeinput.py', 'brackets', (280, 292), E),
+    ('trees/grammar.py', 'extract', (295, 299), Q + ' (a longer list of '
+     'counters, the extra cells are never used)'),
+    ('trees/grammar.py', 'run', None, P + ' / ' + Q),
+    ('trees/grammar.py', 'binarize_rule', (140, 150), Q + ' (no two adjacent '
+     'equal values in canonical rules)'),
+    ('trees/trees.py', 'make_node_data_fill', None,
+     F + ' (defaults of fields that the writers replace by -- when absent)'),
+    ('trees/trees.py', '__str__', None, 'debug representation of a Label'),
+    ('trees/trees.py', 'parse_label', (349, 361), Q + ' (the guarded length is '
+     'never 0 there; a one-character function after the separator is now in '
+     'the structured labels of C20)'),
+    ('trees/transform.py', '_uncollapse_unary_chains', (810, 820), Q + ' (a + '
+     'at position 0 of a label does not occur)'),
+    ('trees/transform.py', 'mark_heads_by_rules', (700, 706), Q + ' (a '
+     'constituent always has children)'),
+    ('trees/transform.py', 'punctuation_root', (455, 465), Q + ' (the loop '
+     'below re-checks the only-child condition at move time)'),
+    ('trees/transform.py', 'boyd_split', (119, 125), N),
+    ('trees/misc.py', 'options_dict', None, Q + ' (a colon at position 0 does '
+     'not occur; flags are only tested with `in`)'),
+    ('trees/treeoutput.py', 'export_tabs', None, T),
+    ('trees/grammaroutput.py', 'pmcfg', (88, 96), Q + ' (overwritten by the '
+     'next statement)'),
+    ('trees/grammaroutput.py', 'rcg', (144, 154), Q + ' (overwritten by the '
+     'next statement) / variable index of a lexical clause'),
+    ('trees/treeanalysis.py', 'gap_type', None, 'helper that no property and '
+     'no command uses'),
+    ('trees/grammarinput.py', '-', None, 'usage table'),
     ('trees/transform.py', 'run', None, P),
     ('trees/transitions.py', 'run', None, P),
     ('trees/treeanalysis.py', 'run', None, P),
@@ -77,7 +116,11 @@ def reason(r):
 
 
 def main():
-    rows = json.load(open(os.path.join(HERE, 'mutation_campaign.json')))
+    rows = []
+    for name in ('mutation_campaign.json', 'mutation_campaign_2.json'):
+        f = os.path.join(HERE, name)
+        if os.path.exists(f):
+            rows += json.load(open(f))
     killed = sum(1 for r in rows if r['verdict'] == 'killed')
     caught = [r for r in rows if r['verdict'] == 'caught']
     inc = [r for r in rows if r['verdict'] == 'inconclusive']
